@@ -406,7 +406,27 @@ def w_c08a():
         return f"the scan without any exclusion pattern (exclusions=()) gives {sorted(without)}, expected {sorted(want)}"
 
 
+def w_c10e():
+    import os
+
+    from .impl import get_evaluable_architecture
+
+    files = {"proj/__init__.py": "", "proj/m.py": "import projx\nimport proj_ext.m\nimport os\n"}
+    with Project(files) as p:
+        cwd = os.getcwd()
+        os.chdir(p.path())
+        try:
+            rel = _nodes(get_evaluable_architecture("proj", "proj", exclude_external_libraries=False))
+        finally:
+            os.chdir(cwd)
+        ab = _nodes(scan(p, "proj", exclude_external_libraries=False))
+    if rel != ab or "projx" not in rel or "proj_ext.m" not in rel:
+        return (f"with a relative root_path and external libraries included, imported external modules whose name contains the root "
+                f"directory's name are missing: relative {sorted(rel)}, absolute {sorted(ab)}")
+
+
 WITNESSES = {
+    "F-C10e": ("C10", w_c10e),
     "F-C08a": ("C08", w_c08a),
     "F-C02a": ("C02", w_c02a),
     "F-C02b": ("C02", w_c02b),
